@@ -191,6 +191,7 @@ Inductive ev :=
 | ERequest (user rp : str) (exp_reply : option freason) (exp_ts : list transfer)
 | ESearch (user qs : str) (exp : option (list sobs * list sobs))
 | ECycle (exp_ts : list transfer)
+| ERemove (n : nat)                                            (* TransferManager.remove() of the n-th upload (application call) *)
 | EShares (user : str) (exp_vis exp_locked : list (str * str))      (* (remote directory, file name) of every file listed *)
 | EDirContents (rd : str) (exp_files : list str).
 
@@ -227,6 +228,7 @@ Fixpoint run_events (s : state) (c : cfg) (ts : list transfer) (n : nat) (es : l
       let res := on_transfer_request s c ts u rp in
       (if eqb_opt eqb_freason (snd res) er && eqb_transfers (fst res) ets then [] else [n]) ++ run_events s c (fst res) (S n) r
   | ESearch u qs e :: r => (if check_search s c u qs e then [] else [n]) ++ run_events s c ts (S n) r
+  | ERemove k :: r => run_events s c (firstn k ts ++ skipn (S k) ts) (S n) r
   | EShares u ev el :: r =>
       (if same_pairs (listing s (shares_visible s c u)) ev && same_pairs (listing s (shares_locked s c u)) el then [] else [n])
       ++ run_events s c ts (S n) r
